@@ -179,6 +179,9 @@ func runC15(c *Ctx) {
 						case 6:
 							// twice the size (e.g. Go's 64-byte seed||public form of an Ed25519 private key)
 							n = refcbor.NBstr(append(append([]byte{}, full...), full...))
+							if isOKP && which == 2 {
+								n = refcbor.NBstr(append(append([]byte{}, mat.edD...), mat.edX...)) // exactly Go's seed||public
+							}
 						}
 						entries = append(entries, gen.KeyEntry{Label: i64(label), Value: n})
 					}
